@@ -18,6 +18,7 @@ import (
 	"github.com/blinklabs-io/gouroboros/protocol/keepalive"
 	"github.com/blinklabs-io/gouroboros/protocol/leiosfetch"
 	"github.com/blinklabs-io/gouroboros/protocol/leiosnotify"
+	"github.com/blinklabs-io/gouroboros/protocol/leiosvotes"
 	"github.com/blinklabs-io/gouroboros/protocol/localmessagenotification"
 	"github.com/blinklabs-io/gouroboros/protocol/localmessagesubmission"
 	"github.com/blinklabs-io/gouroboros/protocol/localstatequery"
@@ -239,6 +240,15 @@ func sampleMsg(label string, typ uint8, variant int, n uint64) protocol.Message 
 			return leiosnotify.NewMsgBlockOffer(samplePoint(n), 1000+n)
 		case 5:
 			return leiosnotify.NewMsgDone()
+		}
+	case label == "leiosvotes":
+		switch typ {
+		case 0:
+			return leiosvotes.NewMsgVotesRequestNext(1)
+		case 1:
+			return leiosvotes.NewMsgVote(leiosvotes.Vote{SlotNo: 500 + n, EndorserBlockHash: [32]byte{7, byte(n)}, VoterId: n, VoteSignature: append(make([]byte, 47), byte(n))})
+		case 2:
+			return leiosvotes.NewMsgDone()
 		}
 	case label == "leiosfetch":
 		switch typ {
